@@ -45,6 +45,12 @@ CHECKS = {
  "C18": ("conversion-guard dominance + linear normal form of index arithmetic over SSA + writer/reader agreement per typed key + language analysis of the separator",
          "Encoder: narrowing to one byte only under len<=255, one length byte then the whole value, index advances by 1+copied, buffer = sum(1+len). Decoder: accept iff idx+1+n<=len(bz) in linear normal form, copies bz[idx+1:idx+1+n], loop while idx<len. Typed keys: count/order/field binding agree between encode and decode (bytes and strings), address format and 8-byte width checked on decode. Separator outside every admitted alphabet. Injectivity/prefix-exactness follow on paper from these premises.",
          "Trusts copy/append/strings.Split/strconv; nothing is executed."),
+ "C14": ("shape/provenance of GetSignBytes + exhaustiveness of codec registrations + finite pair analysis of legacy-amino JSON objects",
+         "GetSignBytes of all 14 messages is MustSortJSON(ModuleCdc.MustMarshalJSON(whole msg)); message types = RegisterImplementations set = RegisterConcrete set with distinct amino and proto names; all modules in ModuleBasics, DefaultSignModes; for the 7 legacy-amino-signable types every pair (21) is separated by a registered type name on the signing codec or by a required field absent from the other type. One pair (CreateDID/UpdateDID) is a recorded known finding.",
+         "Trusts amino JSON encoder, MustSortJSON, SDK sign-mode handlers, proto encoding injectivity."),
+ "C15": ("definite-edge reachability to coin-moving bank functions/interface methods (with positive control) + capability type scan + provenance of GetSigners under path conditions",
+         "No coin-moving bank keeper function or interface method is reachable from the 14 handlers, their stateless methods or the aol/did/pnft block hooks; the x/nft keeper never reads its bank keeper; AddRecord's signers are [feePayer, writer] iff a fee payer is named, else [writer]; all other messages have one signer; DeductFeeDecorator with the fee-grant keeper precedes signature verification.",
+         "Trusts DeductFeeDecorator, baseapp atomicity of runMsgs, bank supply accounting."),
 }
 
 PENDING_REASON = "check not built yet in this round (planned per DESIGN.md section 4); no claim is made until the checker rule exists"
